@@ -121,9 +121,8 @@ def parseGoArgs (s : String) : List Val :=
       | some i => .int i
       | none => .other a
 
-def builtinCall (p : Prog) (goFn : String) (params : String) : Except String Val :=
-  let args := parseGoArgs params
-  let fn := (goFn.splitOn ".").getLast?.getD goFn
+/-- the runtime helpers of body.go.tpl (`_getEnv`, `_getEnvInt`, `_paramTodo`) and the fixture functions -/
+def builtinFn (p : Prog) (fn : String) (args : List Val) : Except String Val :=
   match fn, args with
   | "getEnv", (.str k) :: rest =>
     match p.env.lookup k, rest with
@@ -142,7 +141,12 @@ def builtinCall (p : Prog) (goFn : String) (params : String) : Except String Val
   | "Fn1", as => .ok (.str ("fn1/" ++ toString as.length))
   | "FnInt", as => .ok (.int (41 + as.length))
   | "FnFail", _ => .error "fnfail"
-  | _, _ => .error ("unknown function " ++ goFn)
+  | _, _ => .error ("unknown function " ++ fn)
+
+def baseName (goFn : String) : String := (goFn.splitOn ".").getLast?.getD goFn
+
+def builtinCall (p : Prog) (goFn : String) (params : String) : Except String Val :=
+  builtinFn p (baseName goFn) (parseGoArgs params)
 
 def rvOfVal : Val → RV
   | .null => .nil
